@@ -66,6 +66,12 @@ pub fn mbi_kind(typ: u32) -> Option<(usize, usize, &'static str)> {
         .map(|k| (k.1, k.2, k.3))
 }
 
+/// In-memory size of the typed view of a fixed-size kind (its Rust struct),
+/// None for kinds with a variable-length tail.
+pub fn sized_view_size(typ: u32) -> Option<usize> {
+    mbi_kind(typ).and_then(|(fixed, elem, _)| if elem == 0 { Some((fixed + 7) & !7) } else { None })
+}
+
 pub const H_END: u16 = 0;
 pub const H_INFOREQ: u16 = 1;
 pub const H_ADDRESS: u16 = 2;
